@@ -11,7 +11,7 @@ except ImportError:
 
 from typing import Any, Callable, Dict, Iterable, List, Mapping, Optional, Tuple, Type, TypedDict, Union
 
-from pjrpc.common import UNSET, MaybeSet, UnsetType, exceptions
+from pjrpc.common import UNSET, MaybeSet, exceptions
 from pjrpc.common.typedefs import Func
 from pjrpc.server import Method, utils
 
@@ -19,6 +19,15 @@ from . import Specification, extractors
 
 Json = Union[str, int, float, dict, bool, list, tuple, set, None]  # type: ignore[type-arg]
 JsonSchema = Dict[str, Any]
+
+
+def drop_unset(obj: Any) -> Any:
+    if isinstance(obj, dict):
+        return dict((drop_unset(k), drop_unset(v)) for k, v in obj.items() if k is not UNSET and v is not UNSET)
+    if isinstance(obj, (tuple, list, set)):
+        return list(drop_unset(v) for v in obj if v is not UNSET)
+
+    return obj
 
 
 def remove_prefix(s: str, prefix: str) -> str:
@@ -481,12 +490,7 @@ class OpenRPC(Specification):
                 ),
             )
 
-        return dc.asdict(
-            spec,
-            dict_factory=lambda iterable: dict(
-                filter(lambda item: not isinstance(item[1], UnsetType), iterable),
-            ),
-        )
+        return drop_unset(dc.asdict(spec))
 
     def _extract_params_schema(self, spec: SpecRoot, method: Method) -> List[ContentDescriptor]:
         method_meta = utils.get_meta(method.method)
